@@ -1541,6 +1541,11 @@ func (fc *funcContext) formatExprInternal(format string, a []any, parens bool) *
 		case 'f':
 			e := a[n].(ast.Expr)
 			if val := fc.pkgCtx.Types[e].Value; val != nil {
+				if i := constant.ToInt(val); i.Kind() == constant.Int {
+					// All digits of the value, which may not fit into an int64.
+					out.WriteString(i.ExactString())
+					return
+				}
 				d, _ := constant.Int64Val(constant.ToInt(val))
 				out.WriteString(strconv.FormatInt(d, 10))
 				return
